@@ -345,6 +345,15 @@ func parseEmbed(t *Tree, start Pos) (Node, error) {
 			return nil, newUnclosedTagError("embed", start)
 		} else if tok.tokenType == tokenError {
 			return nil, newUnexpectedTokenError(tok)
+		} else if tok.tokenType == tokenPrintOpen {
+			// What an embed body prints outside its blocks is discarded,
+			// but it has to be well formed like any other print.
+			if _, err := t.parseExpr(); err != nil {
+				return nil, err
+			}
+			if _, err := t.expect(tokenPrintClose); err != nil {
+				return nil, err
+			}
 		} else if tok.tokenType == tokenTagOpen {
 			tok, err := t.expect(tokenName)
 			if err != nil {
